@@ -695,21 +695,53 @@ def r117(ctx, R):
                  'that record (not into one copy shared by all records)',
                  ['line %d' % b.lineno for b in bad] or 'fresh', func=f,
                  node=a)
-        # the table itself is not written
+        # every other use of the table either builds a fresh mapping from
+        # it ({**DEFAULTS, **record} / dict(DEFAULTS, **record)), only
+        # reads it, or is a violation (the table escapes uncopied or is
+        # written)
         for x in own_nodes(f.node):
-            tgt = None
-            if isinstance(x, ast.Call) and isinstance(
-                    x.func, ast.Attribute) and x.func.attr in (
-                        'update', 'pop', 'setdefault', 'clear') and \
-                    is_defaults(f, x.func.value):
-                tgt = x
-            if isinstance(x, ast.Subscript) and isinstance(
-                    x.ctx, (ast.Store, ast.Del)) and is_defaults(f, x.value):
-                tgt = x
-            if tgt is not None:
+            if not (isinstance(x, (ast.Name, ast.Attribute)) and isinstance(
+                    getattr(x, 'ctx', None), ast.Load)
+                    and is_defaults(f, x)):
+                continue
+            par = getattr(x, '_parent', None)
+            if isinstance(par, ast.Attribute) and par.value is x:
+                # DEFAULTS.<method>: handled through the call below
+                gp = getattr(par, '_parent', None)
+                if isinstance(gp, ast.Call) and gp.func is par:
+                    okm = par.attr in ('get', 'items', 'keys', 'values',
+                                       'copy')
+                    if not okm:
+                        R.ob('R11.7', '%s:defaults-table-written' % f.qbase,
+                             False, 'INVENTORY_DEFAULTS is never modified',
+                             src(gp)[:60], func=f, node=gp)
+                continue
+            if isinstance(par, ast.Call) and x in par.args:
+                if fresh_copy(f, par):
+                    continue       # counted with the named copies above
+                if src(par.func) == 'dict' and par.args[0] is x:
+                    n += 1         # dict(DEFAULTS, **record): fresh
+                    continue
+            if isinstance(par, ast.Dict) and any(
+                    k is None and v is x
+                    for k, v in zip(par.keys, par.values)):
+                n += 1             # {**DEFAULTS, **record}: fresh
+                continue
+            if isinstance(par, ast.Subscript) and par.value is x:
+                if isinstance(par.ctx, ast.Load):
+                    continue
                 R.ob('R11.7', '%s:defaults-table-written' % f.qbase, False,
-                     'INVENTORY_DEFAULTS is never modified', src(tgt)[:60],
-                     func=f, node=tgt)
+                     'INVENTORY_DEFAULTS is never modified', src(par)[:60],
+                     func=f, node=par)
+                continue
+            if isinstance(par, ast.Compare) or isinstance(
+                    par, (ast.For, ast.comprehension)):
+                continue
+            R.ob('R11.7', '%s:defaults-table-escapes' % f.qbase, False,
+                 'the defaults table is only copied or read, never aliased '
+                 'or handed on (a later merge would write the table)',
+                 src(par)[:60] if par is not None else src(x), func=f,
+                 node=x)
     R.count('R11.7', n, 3)
     # the reshaper stores the requested inventory of every listed provider
     from psa.rules import c01
